@@ -175,6 +175,13 @@ def r2(ctx):
         ve = s.stmt.value
         fl = Flow(ana, upd)
         hops = 0
+        def unget(e_):
+            # buckets.get(k, []) of a dict of lists is buckets[k] (a missing key is an empty bucket either way)
+            if isinstance(e_, ast.Call) and isinstance(e_.func, ast.Attribute) and e_.func.attr == "get" and len(e_.args) == 2 and not e_.keywords \
+                    and isinstance(e_.args[1], ast.List) and not e_.args[1].elts:
+                return ast.copy_location(ast.Subscript(value=e_.func.value, slice=e_.args[0], ctx=ast.Load()), e_)
+            return e_
+
         def uncopy(e_):
             # list(x), tuple(x), sorted(x), copy.copy(x), x[:] of a bucket hold the bucket's points (buckets are filled in index
             # order, so sorting changes nothing; the setter stores its own sorted list anyway)
@@ -189,11 +196,13 @@ def r2(ctx):
                     e_ = e_.value
                     continue
                 return e_
-        ve = uncopy(ve)
+        ve = unget(uncopy(ve))
         while isinstance(ve, ast.Name) and hops < 5:
             d = fl.sole_def(ve.id, fl.at(ve))
-            ve = uncopy(d.ast.value) if d is not None and d.kind == "stmt" and isinstance(d.ast, ast.Assign) else None
+            ve = unget(uncopy(d.ast.value)) if d is not None and d.kind == "stmt" and isinstance(d.ast, ast.Assign) else None
             hops += 1
+        if isinstance(v, App) and v.fn == ".get" and len(v.args) == 3 and v.args[2] == tm.Lst([]) and not v.kw:
+            v = Idx(v.args[0], (v.args[1],))
         while isinstance(v, App) and v.fn in ("builtins.list", "builtins.tuple", "builtins.sorted", "copy.copy", "copy.deepcopy") and len(v.args) == 1 and not v.kw:
             v = v.args[0]
         if isinstance(v, Idx) and len(v.idx) == 1 and isinstance(v.idx[0], tm.Slc) and v.idx[0].lo is None and v.idx[0].hi is None and v.idx[0].step is None:
